@@ -20,7 +20,8 @@ class TLCResult:
         self.ok = "Model checking completed. No error has been found." in out or \
                   "Finished computing initial states" in out and "Error:" not in out
         self.invariant_violated = re.findall(r"Invariant (\w+) is violated", out)
-        self.property_violated = "Temporal properties were violated" in out
+        self.action_violated = re.findall(r"Action property (\w+) is violated", out)
+        self.property_violated = "Temporal properties were violated" in out or bool(self.action_violated)
         self.deadlock = "Deadlock reached" in out
 
     def printed(self, tag):
